@@ -116,6 +116,17 @@ def check_case(case):
                 tgt = si.units_string(("m", "s", "mol"), dim)
                 got = q.convert(tgt)
                 _check_result("family:convert", q, got, ("m", "s", "mol"), dim, out, case)
+        elif sub == "famprod":
+            a = UnitValue(VALS[0], case["text"])
+            b = UnitValue(VALS[0], case["equals"])
+            if uq.dim_of(a.units) != uq.dim_of(b.units):
+                out.append(("C06:family-product:dimension", "%r has dimension %s, %r has %s" % (case["text"], uq.dim_of(a.units), case["equals"], uq.dim_of(b.units))))
+            else:
+                x, y = uq.si_value(a), uq.si_value(b)
+                if not float(abs(x / y - 1)) <= TOL:
+                    out.append(("C06:family-product:si-meaning", "1 %s = %.17g SI but 1 %s = %.17g SI" % (case["text"], float(x / F(VALS[0])), case["equals"], float(y / F(VALS[0])))))
+                got = a.convert(b.units)
+                _check_result("family-product:convert", a, got, uq.sys_of(b.units), uq.dim_of(b.units), out, case)
         elif sub == "mismatch":
             src, dst = tuple(case["src"]), tuple(case["dst"])
             d1, d2 = tuple(case["dim"]), tuple(case["dim2"])
@@ -221,10 +232,24 @@ def _spaces(tier):
                 if d1 != d2:
                     for form in ("str", "Units", "UnitValue"):
                         for kind in ("scalar", "array"):
-                            yield {"sub": "mismatch", "src": si.MIXED[0], "dst": si.MIXED[3], "dim": d1, "dim2": d2,
-                                   "kind": kind, "form": form}
-    sp.append(("mismatch: every ordered pair of different dimensions of {-1,0,1}^3 x 3 target forms x {scalar,array} must raise",
-               gen_mis, 27 * 26 * 3 * 2))
+                            for (a, b) in ((si.MIXED[0], si.MIXED[3]), (si.DEFAULT, si.DEFAULT), (si.MIXED[0], si.MIXED[0])):
+                                yield {"sub": "mismatch", "src": a, "dst": b, "dim": d1, "dim2": d2, "kind": kind, "form": form}
+    sp.append(("mismatch: every ordered pair of different dimensions of {-1,0,1}^3 x 3 target forms x {scalar,array} x "
+               "{different systems, same default system, same non-default system} must raise", gen_mis, 27 * 26 * 3 * 2 * 3))
+
+    def gen_famprod():
+        # molar x litre of the same space unit is an amount: "xM.L" = xmol, "xmol/L" = xM, "L/L" dimensionless ...
+        for m in si.MOLAR:
+            yield {"sub": "famprod", "text": "%s.L" % m, "equals": si.MOLAR[m]}
+            yield {"sub": "famprod", "text": "L.%s" % m, "equals": si.MOLAR[m]}
+            yield {"sub": "famprod", "text": "%s/L" % si.MOLAR[m], "equals": m}
+            yield {"sub": "famprod", "text": "%s.dm3" % m, "equals": si.MOLAR[m]}
+            yield {"sub": "famprod", "text": "%s2.L2" % m, "equals": "%s2" % si.MOLAR[m]}
+        for l, b in si.LITRE.items():
+            yield {"sub": "famprod", "text": "%s/%s2" % (l, b), "equals": b}
+            yield {"sub": "famprod", "text": "%s.%s-3" % (l, b), "equals": ""}
+    sp.append(("family products: molar x litre = amount, amount / litre = molar, litre / area = length (same base unit twice in "
+               "one text)", gen_famprod, 9 * 5 + 7 * 2))
     return sp
 
 
@@ -239,7 +264,7 @@ def _work(job):
     for case in itertools.islice(gen(), lo, hi):
         res = check_case(case)
         acc.add(states=1, transitions=1, traces=1, evaluations=1)
-        nt = case.get("src") != case.get("dst") or case["sub"] in ("compose", "family", "mismatch")
+        nt = case.get("src") != case.get("dst") or case["sub"] in ("compose", "family", "mismatch", "famprod")
         if nt:
             seen_nt += 1
         for key, what in res:
